@@ -126,6 +126,15 @@ C06_IDIOMS = {
                                                           Set("c", Closure([], Ret(Rd("y")))), Set("keep", Call("inner", Int(5))),
                                                           SetG("len", Op("Len", Dyn(Rd("c")))), Ret(Rd("keep"))]),
                                            ("inner", ["a"], [Set("x", Op("Add", Rd("a"), Int(1))), Ret(Closure([], Ret(Rd("x"))))])),
+    # closures nested two deep: the inner one captures a local and a parameter of the outer one, the outer one runs off its end
+    # (no Return card), the inner one escapes through a global and is used afterwards
+    "inner-closure-outlives-outer-closure": Prog([Set("mk", Closure(["p"], Set("x", Op("Add", Rd("p"), Int(40))),
+                                                                        SetG("inner", Closure([], Set("x", Op("Add", Rd("x"), Int(1))), Ret(Op("Add", Rd("x"), Rd("p"))))),
+                                                                        SetG("reader", Closure([], Ret(Rd("x")))))),
+                                                  Dyn(Rd("mk"), Int(2)), Call("noise", Int(100), Int(101), Int(102)),
+                                                  SetG("a", Dyn(Rd("inner"))), SetG("b", Dyn(Rd("inner"))), SetG("c", Dyn(Rd("reader")))],
+                                                 ("noise", ["p", "q", "r"], [Set("s", Op("Add", Rd("p"), Rd("q"))), Set("t", Int(100)),
+                                                                             Set("u", Int(100)), Ret(Rd("s"))])),
     # closure capturing a parameter and a local of a function called with arguments, early return in between
     "capture-param-early-return": Prog([Set("k", Int(9)), Set("f", Call("mk", Int(4), Int(6))), SetG("r", Dyn(Rd("f"), Int(1)))],
                                        ("mk", ["a", "b"], [Set("s", Op("Add", Rd("a"), Rd("b"))),
